@@ -9,6 +9,7 @@ import (
 	"sort"
 	"strings"
 	"sync/atomic"
+	"syscall"
 	"time"
 
 	"github.com/onflow/atree"
@@ -58,9 +59,19 @@ func progress() { lastProgress.Store(time.Now().UnixNano()) }
 func StartWatchdog(limit time.Duration) {
 	progress()
 	go func() {
+		cpuAt, seen := cpuTime(), lastProgress.Load()
 		for {
 			time.Sleep(time.Second)
-			if time.Duration(time.Now().UnixNano()-lastProgress.Load()) < limit {
+			lp := lastProgress.Load()
+			if lp != seen {
+				seen, cpuAt = lp, cpuTime()
+				continue
+			}
+			// The library is looping if the PROCESS burned `limit` of CPU time without progress; it is
+			// blocked (deadlock) if nothing happened for five times that in wall-clock time.  Plain
+			// wall-clock time would misfire when the machine is overloaded and the process starved.
+			wall := time.Duration(time.Now().UnixNano() - lp)
+			if cpuTime()-cpuAt < limit && wall < 5*limit {
 				continue
 			}
 			st := curStats.Load()
@@ -68,7 +79,7 @@ func StartWatchdog(limit time.Duration) {
 				st = NewStats("?", 0)
 			}
 			v := Violation{Property: "*", Stream: st.Stream, Seed: st.Seed, Program: st.Programs,
-				What: fmt.Sprintf("the library did not return: no progress of stream %s for %v", st.Stream, limit)}
+				What: fmt.Sprintf("the library did not return: no progress of stream %s for %v of CPU time / %v of wall-clock time", st.Stream, (cpuTime() - cpuAt).Round(time.Second), wall.Round(time.Second))}
 			if w := curW.Load(); w != nil {
 				w.bw.Flush()
 				v.Trace, v.Line = w.Path, w.Lines
@@ -78,6 +89,15 @@ func StartWatchdog(limit time.Duration) {
 			os.Exit(3)
 		}
 	}()
+}
+
+// cpuTime is the CPU time (user + system) this process has consumed.
+func cpuTime() time.Duration {
+	var ru syscall.Rusage
+	if err := syscall.Getrusage(syscall.RUSAGE_SELF, &ru); err != nil {
+		return 0
+	}
+	return time.Duration(ru.Utime.Nano() + ru.Stime.Nano())
 }
 
 func (w *W) Close() {
